@@ -5,6 +5,7 @@ package c07sc
 
 import (
 	"bytes"
+	"errors"
 	"strings"
 
 	"github.com/yuin/goldmark"
@@ -183,6 +184,26 @@ const (
 	ent2  = "[a](/u?&para;=1 \"&reg;\")\n"
 )
 
+// failAfter accepts k bytes in total and then fails every write.
+type failAfter struct {
+	left int
+	got  bytes.Buffer
+}
+
+func (w *failAfter) Write(p []byte) (int, error) {
+	if len(p) <= w.left {
+		w.left -= len(p)
+		w.got.Write(p)
+		return len(p), nil
+	}
+	n := w.left
+	w.got.Write(p[:n])
+	w.left = 0
+	return n, errFailAfter
+}
+
+var errFailAfter = errors.New("destination failed")
+
 func convertBody(md goldmark.Markdown, doc string) func() Result {
 	return func() Result {
 		var b bytes.Buffer
@@ -272,6 +293,18 @@ var Scenarios = []Scenario{
 		}},
 	{"S6-entity-first", "two goroutines whose documents reach the lazily built HTML5 entity table for the first time, one from text and one from a link destination and title", 2, converts(false, ent1, ent2)},
 	{"S8-convert2-sink-after-history", "as S2 after the instance has converted, one after the other, a list of documents that end in unusual parser states (HistoryDocs)", 2, convertsAfterHistory(SinkA, SinkB)},
+	{"S9-convert3-failing-writers", "three goroutines Convert on a new shared Markdown: one into a writer that fails after 20 bytes, one into a healthy buffer, one into a writer that refuses every byte; each must get exactly the accepted bytes and the error it gets when run alone (a fault in one conversion must not leak into another)", 3,
+		func(cfg core.Cfg) *Instance {
+			md := cfg.New()
+			failing := func(doc string, k int) func() Result {
+				return func() Result {
+					w := &failAfter{left: k}
+					err := md.Convert([]byte(doc), w)
+					return Result{w.got.Bytes(), err}
+				}
+			}
+			return &Instance{Bodies: []func() Result{failing(tiny1, 20), convertBody(md, tiny2), failing(tiny3, 0)}}
+		}},
 	{"S7-default-instance", "two goroutines call the package-level goldmark.Convert (shared default instance)", 2,
 		func(cfg core.Cfg) *Instance {
 			mk := func(doc string) func() Result {
